@@ -28,6 +28,9 @@ META = dict(
     ),
     not_decided="absence of over-strictness in general (the whole grammar semantics of every keyword); whitespace options",
 )
+META["explanation"] += (
+    " Added after the independent seeding rounds 2-3: " 'R2 row re-use watermark values. R3 object-intersection operand pairing (shared with C06-R7). R4 the only token removed from every mask is the bare marker token or none (adopted from C19-R2).'
+)
 
 
 def ty_contains(t, names):
